@@ -83,8 +83,39 @@ def _tty_regexes(a):
     return out
 
 
+_CUR = {'a': None}
+
+
+def _bind(a):
+    _CUR['a'] = a
+
+
+class _StyleObj(Obj):
+    """stand-in for a Style: an attribute the class declares as a slot and the stand-in was not given reads as None (what __init__
+    of a caching / bookkeeping slot sets), and every plain method of the class is available to the code under interpretation"""
+
+    def __getattr__(self, name):
+        if name in object.__getattribute__(self, '__dict__').get('_slots', ()):
+            return None
+        raise AttributeError(name)
+
+
+def _style_slots(a) -> tuple:
+    v = a.p.cls(STYLE).assigns.get('__slots__')
+    try:
+        return tuple(ast.literal_eval(v)) if v is not None else ()
+    except Exception:  # noqa: BLE001
+        return ()
+
+
 def _style_obj(flags: dict, fg, bg, enabled=True, fmt=None):
-    return Obj(_fg=fg, _bg=bg, _fmt=fmt, enabled=enabled, **{f'_{k}': bool(flags.get(k)) for k in FLAGS})
+    a = _CUR['a']
+    st = _StyleObj(_fg=fg, _bg=bg, _fmt=fmt, enabled=enabled, **{f'_{k}': bool(flags.get(k)) for k in FLAGS})
+    if a is not None:
+        from ..minieval import mro_methods
+        object.__setattr__(st, '_slots', _style_slots(a))
+        object.__setattr__(st, '_methods', dict(mro_methods(a, STYLE)))
+    return st
 
 
 def _encode(a, style, text='T', force=True):
@@ -117,6 +148,7 @@ def _decode(a, raw: str, rx):
 
 
 def r1_tables(a, tier):
+    _bind(a)
     rep = RuleReport(
         'C20.R1',
         'code tables agree: for every attribute combination of the finite domain, the SGR parameters Style.apply_style writes '
@@ -163,6 +195,7 @@ def r1_tables(a, tier):
 
 
 def r2_gating(a, tier):
+    _bind(a)
     rep = RuleReport(
         'C20.R2',
         'colour gating: in Style.apply_style every return of a string built with an ESC[ sequence lies on a path on which '
@@ -198,6 +231,7 @@ def r2_gating(a, tier):
 
 
 def r3_inclusion(a, tier):
+    _bind(a)
     rep = RuleReport(
         'C20.R3',
         'what is emitted is what is stripped: the language of the SGR prefix/suffix Style.apply_style can emit (ESC [ parameters of '
@@ -232,6 +266,7 @@ def r3_inclusion(a, tier):
 
 
 def r4_apply(a, tier):
+    _bind(a)
     rep = RuleReport(
         'C20.R4',
         'text provenance: Style.apply(text, fmt), interpreted over {fmt given / empty / absent} x {spec stored on the style / none} '
@@ -245,7 +280,7 @@ def r4_apply(a, tier):
     asf = a.p.func(f'{STYLE}.apply_style')
     for fmt, stored, enabled, fl, fg in itertools.product([None, '', '>6', '*^8'], [None, '<7'], [True, False], [{}, {'bold': True}], [-1, 2]):
         st = _style_obj(fl, fg, -1, enabled=enabled, fmt=stored)
-        object.__setattr__(st, '_methods', {'apply_style': asf.node})
+        object.__setattr__(st, '_methods', {**st._methods, 'apply_style': asf.node})
         ev = _with_helpers(a, _Ev({'RGB': RGBv}, calls={'format': format}))
         try:
             out = ev.call_function(ap.node, [st, 'ab', fmt])
@@ -269,7 +304,7 @@ def r4_apply(a, tier):
                 continue
             st = _style_obj({'bold': True} if fg != -1 else {}, fg, -1, enabled=enabled, fmt=stored)
             object.__setattr__(st, 'value', 'ab')
-            object.__setattr__(st, '_methods', {'apply_style': asf.node, 'apply': ap.node, '__str__': sm.node})
+            object.__setattr__(st, '_methods', {**st._methods, 'apply_style': asf.node, 'apply': ap.node, '__str__': sm.node})
             ev = _with_helpers(a, _Ev({'RGB': RGBv}, calls={'format': format}))
 
             def methods(recv, name, args_, kwargs, st=st, ev=ev):
@@ -330,7 +365,7 @@ def r4_apply(a, tier):
     rp = a.p.func(f'{STYLE}.__repr__')
     st = _style_obj({'bold': True}, 2, -1, enabled=False, fmt=None)
     object.__setattr__(st, 'value', 'ab')
-    object.__setattr__(st, '_methods', {'apply_style': asf.node})
+    object.__setattr__(st, '_methods', {**st._methods, 'apply_style': asf.node})
     ev = _with_helpers(a, _Ev({'RGB': RGBv}, calls={'tty_escape': lambda t: t, 'repr': repr}))
     try:
         out = ev.call_function(rp.node, [st])
@@ -348,7 +383,7 @@ def r4_apply(a, tier):
     for value, spec, styled in itertools.product(('ab', 'x'), ('>6', ':>10', ':^8', '*<7', ':', '.3', None), (False, True)):
         st = _style_obj({'bold': True} if styled else {}, 2 if styled else -1, -1, enabled=False, fmt=spec)
         object.__setattr__(st, 'value', value)
-        object.__setattr__(st, '_methods', {'apply_style': asf.node})
+        object.__setattr__(st, '_methods', {**st._methods, 'apply_style': asf.node})
         ev = _with_helpers(a, _Ev({'RGB': RGBv}, calls={'tty_escape': lambda t: t, 'repr': repr}))
         made: list = []
         cls, re_mod, colour = Obj(), Obj(), Obj()
@@ -388,6 +423,7 @@ PAD_METHODS = {'ljust', 'rjust', 'center', 'zfill', 'expandtabs'}
 
 
 def r5_style_last(a, tier):
+    _bind(a)
     rep = RuleReport(
         'C20.R5',
         'users of styles cut and measure TEXT, then style it: in the modules that render with Style objects (error rendering in '
@@ -472,6 +508,7 @@ def _is_styled(e, style_attrs, style_locals) -> bool:
 
 
 def r6_gating_policy(a, tier):
+    _bind(a)
     import itertools as _it
 
     from ..modelinterp import Hook, ModelInterp, Stub
@@ -516,4 +553,51 @@ def r6_gating_policy(a, tier):
     return rep
 
 
-RULES = [r1_tables, r2_gating, r3_inclusion, r4_apply, r5_style_last, r6_gating_policy]
+def r7_no_rendering_memory(a, tier):
+    _bind(a)
+    rep = RuleReport(
+        'C20.R7',
+        'what a style writes is a function of its attributes, not of what was rendered before: for every modifier method (bold, dim, '
+        'italic, underline, blink, inverse, hidden, strikethrough) and base style (plain, coloured, already modified), the style derived '
+        'AFTER the base was rendered (apply_style forced, interpreted; copy() copies every slot) renders exactly like a stand-in that was '
+        'given the derived attributes and never rendered - a memoised escape string that a modifier does not invalidate would make repr '
+        'and str of the derived style lose the modifier',
+        floor=16,
+    )
+    cls = a.p.cls(STYLE)
+
+    def clone(o):
+        c = _StyleObj()
+        for k, v in vars(o).items():
+            object.__setattr__(c, k, v if k != '_methods' else dict(v))
+        return c
+    bases = [('plain', {}, -1), ('red', {}, 1), ('dim green', {'dim': True}, 2)]
+    n_bad = 0
+    for flag in FLAGS:
+        meth = cls.methods.get(flag)
+        if meth is None:
+            continue
+        for bname, bflags, bfg in bases:
+            if bflags.get(flag):
+                continue
+            try:
+                base = _style_obj(bflags, bfg, -1)
+                ev = _with_helpers(a, _Ev({'RGB': RGBv}, calls={'copy': clone}))
+                first = ev.call_function(a.p.func(f'{STYLE}.apply_style').node, [base, 'T', True])
+                derived = ev.call_function(meth.node, [base])
+                got = ev.call_function(a.p.func(f'{STYLE}.apply_style').node, [derived, 'T', True])
+                fresh = _style_obj({**bflags, flag: True}, bfg, -1)
+                want = _with_helpers(a, _Ev({'RGB': RGBv})).call_function(a.p.func(f'{STYLE}.apply_style').node, [fresh, 'T', True])
+                again = ev.call_function(a.p.func(f'{STYLE}.apply_style').node, [base, 'T', True])
+            except Unsupported as e:
+                raise AnalysisError(f'C20.R7: cannot interpret Style.{flag}: {e}') from e
+            ok = got == want and again == first
+            rep.add({'base': bname, 'modifier': flag, 'base_rendered': first, 'derived_renders': got, 'never_rendered_twin': want, 'ok': ok})
+            if not ok and n_bad < 6:
+                n_bad += 1
+                rep.fail(meth.qualname, f'stale-render:{flag}:{bname}', f'a {bname} style is rendered ({first!r}), then .{flag}() is derived from it: the derived style renders '
+                         f'{got!r}, a style with the same attributes that was never rendered writes {want!r} (the base afterwards: {again!r})', meth.loc)
+    return rep
+
+
+RULES = [r1_tables, r2_gating, r3_inclusion, r4_apply, r5_style_last, r6_gating_policy, r7_no_rendering_memory]
